@@ -25,12 +25,15 @@ WALKS = {
     "C27": [("election", ["--w-append", 0, "--w-drop", 10, "--w-dup", 6, "--w-process", 26], 160, 2500, 200, 3),
             ("partitions", ["--w-partition", 30, "--w-append", 3, "--w-drop", 4, "--w-dup", 4, "--w-process", 24], 80, 1500, 250, 3),
             ("election5", ["--w-append", 0, "--w-drop", 10, "--w-dup", 5, "--w-process", 24], 40, 600, 300, 5),
+            ("election4", ["--w-append", 0, "--w-drop", 10, "--w-dup", 5, "--w-process", 24], 40, 600, 250, 4),
             ("mixed", [], 60, 1000, 200, 3)],
     "C28": [("replication", ["--w-drop", 12, "--w-dup", 4, "--max-appends", 8], 200, 3000, 250, 3),
             ("replication5", ["--w-drop", 10, "--w-dup", 3, "--max-appends", 8], 40, 600, 300, 5),
+            ("replication4", ["--w-drop", 10, "--w-dup", 3, "--max-appends", 8], 40, 600, 250, 4),
             ("partitions", ["--w-partition", 25, "--w-drop", 4, "--w-dup", 3, "--max-appends", 8], 150, 2500, 300, 3)],
     "C29": [("replication", ["--w-drop", 14, "--w-dup", 3, "--w-process", 22, "--max-appends", 8], 200, 3000, 250, 3),
             ("replication5", ["--w-drop", 10, "--w-dup", 3, "--w-process", 22, "--max-appends", 8], 40, 600, 300, 5),
+            ("replication4", ["--w-drop", 10, "--w-dup", 3, "--w-process", 22, "--max-appends", 8], 40, 600, 250, 4),
             ("partitions", ["--w-partition", 25, "--w-drop", 4, "--w-dup", 3, "--w-process", 20, "--max-appends", 8], 200, 3000, 300, 3)],
 }
 MC_CFG = {
@@ -46,7 +49,7 @@ MBT = {
 
 
 def cfg_for(n, abs_mode):
-    base = "RaftTrace" + ("Abs" if abs_mode else "") + ("5" if n == 5 else "")
+    base = "RaftTrace" + ("Abs" if abs_mode else "") + ("" if n == 3 else str(n))
     return base + ".cfg"
 
 
